@@ -235,6 +235,27 @@ def run(chk: core.Check):
 
 
 def witness_fails(w) -> bool:
+    if w.get("kind") == "settings_merge":
+        # before 5140276d every unit phase died in create_test (TypeError from hypothesis.settings) and ended as skipped
+        evs, reqs = run_engine(U.schema_with_ops(1), U.make_responder(["fail"]), phases=["fuzzing"], workers=1, max_examples=2)
+        phase = [e for e in evs if event_kind(e) == "PhaseFinished" and e.phase.name.name == "FUZZING"][0]
+        return phase.status.name != "FAILURE" or not reqs
+    if w.get("kind") == "create_test_raises":
+        # before 0063524b an unexpected exception class raised by create_test killed the worker silently
+        from schemathesis.core import _verif
+
+        class Ctl:
+            def point(self, name, ctx):
+                if name == "create_test":
+                    raise RuntimeError("injected in create_test")
+
+        _verif.set_controller(Ctl())
+        try:
+            evs, _ = run_engine(U.schema_with_ops(1), U.make_responder(["ok"]), phases=["fuzzing"], workers=1, max_examples=1)
+        finally:
+            _verif.set_controller(None)
+        phase = [e for e in evs if event_kind(e) == "PhaseFinished" and e.phase.name.name == "FUZZING"][0]
+        return phase.status.name != "ERROR" or not any(event_kind(e) == "NonFatalError" for e in evs)
     if w.get("kind") == "next_operation_raises":
         # an exception raised by the producer itself kills the worker silently
         from unittest import mock
